@@ -326,7 +326,7 @@ class ReplQueue(SyncObjConsumer):
 
     def full(self):
         """True if queue is full"""
-        return len(self.__data) == self.__maxsize
+        return 0 < self.__maxsize <= len(self.__data)
 
     @replicated
     def put(self, item):
@@ -375,7 +375,7 @@ class ReplPriorityQueue(SyncObjConsumer):
 
     def full(self):
         """True if queue is full"""
-        return len(self.__data) == self.__maxsize
+        return 0 < self.__maxsize <= len(self.__data)
 
     @replicated
     def put(self, item):
